@@ -265,7 +265,7 @@ def gen_case(rng, family, renames):
         g2 = g
     if rng.random() < 0.3:
         prefix_names(rng, g2)
-    if not renames and rng.random() < 0.08:
+    if not renames and family != "shared" and rng.random() < 0.08:     # (kept apart from the shared-name family: one finding per drawing)
         # a top-level node whose NAME spells the hierarchical id of a nested node the way Mermaid writes it ("w1__b" next to w1/b)
         conts = [n for n in g2["nodes"] if n["kind"] == "graph" and n["graph"]["nodes"]]
         outs = [o for n in g2["nodes"] for o in gen.iface(n)[1]]
@@ -630,7 +630,9 @@ def run(ctx):
             g, fam, n_ren, twin = corpus[len(cases)], "corpus", 0, None
         else:
             fam = rng.choice(FAMILIES)
-            g, g_ren, n_ren = gen_case(rng, fam, rng.random() < 0.25)
+            # (the shared-name family is drawn without rename variants: its plain twin already carries finding F-o,
+            #  which would leave the rename finding F-k without a clean twin to compare with)
+            g, g_ren, n_ren = gen_case(rng, fam, rng.random() < 0.25 and fam != "shared")
             twin = None
             if g_ren is not None:
                 # the renamed variant is checked right after its twin without renames (see known finding F-k)
